@@ -291,8 +291,9 @@ where
                     let mut props = vec![
                         PropOrSpread::Prop(Box::new(Prop::KeyValue(KeyValueProp {
                             key: PropName::Ident(quote_ident!("type")),
-                            value: Box::new(if ir.types.len() == 1 {
-                                if let Some(ty) = ir.types.pop().unwrap() {
+                            value: Box::new(if ir.types.len() <= 1 {
+                                // no constructor at all (`{}`, an unresolvable index): no check
+                                if let Some(ty) = ir.types.pop().flatten() {
                                     Expr::Ident(quote_ident!(ty).into())
                                 } else {
                                     Expr::Lit(Lit::Null(Null { span: DUMMY_SP }))
